@@ -202,9 +202,13 @@ def history (udp : Bool) (ops : List String) (segs : List String) : Option (List
       hist := hist ++ [.start c t direct]
     | ["peer", k, t, m, tag] =>
       let t ← parseTok t
-      let retransmission := (k == "con" || k == "non") && seenCon.contains m
-      if k == "con" then seenCon := m :: seenCon
-      if k != "ack" && k != "rst" then hist := hist ++ [.peer (t.getD []) tag (!retransmission)]
+      -- a confirmable message whose message ID was used by an earlier confirmable message of the peer (scenarios never
+      -- use one message ID for two different messages) is that message once more
+      let retransmission := udp && k == "con" && seenCon.contains m
+      let sameMidNon := udp && k == "non" && seenCon.contains m
+      if udp && k == "con" then seenCon := m :: seenCon
+      if retransmission then hist := hist ++ [.again (t.getD []) tag]
+      else if k != "ack" && k != "rst" then hist := hist ++ [.peer (t.getD []) tag (!sameMidNon)]
     | ["blk", t, _, _, tag] =>
       let t ← parseTok t
       hist := hist ++ [.peer (t.getD []) (padTag tag) true]
